@@ -489,12 +489,27 @@ func (v *Verifier) typeTag(t types.Type) *Term {
 	return v.c.Int(n)
 }
 
+// boxName gives the name of the boxing function of a concrete type; types of different packages that share package and
+// type name (x/evm/types.LegacyTx, core/types.LegacyTx) get different functions.
+var boxNames = map[string]string{}
+
+func boxName(t types.Type) string {
+	name := "box_" + sanitize(shortTypeName(t))
+	key := typeKey(t)
+	if prev, ok := boxNames[name]; ok && prev != key {
+		name = fmt.Sprintf("%s_%x", name, hashStr(key))
+	} else {
+		boxNames[name] = key
+	}
+	return name
+}
+
 func (v *Verifier) box(st *State, x *Term, t types.Type) *Term {
 	c := v.c
 	if _, isIface := t.Underlying().(*types.Interface); isIface {
 		return x
 	}
-	name := "box_" + sanitize(shortTypeName(t))
+	name := boxName(t)
 	b := c.UF(name, SInt, x)
 	st.assume(c, c.Not(c.Eq(b, c.Int(0))))
 	st.assume(c, c.Eq(c.UF("typeof", SInt, b), v.typeTag(t)))
@@ -508,6 +523,10 @@ func (fc *FuncCtx) execTypeAssert(fr *Frame, st *State, t *ssa.TypeAssert) {
 	x := v.asTerm(st, fc.valOf(fr, t.X))
 	if _, toIface := t.AssertedType.Underlying().(*types.Interface); toIface {
 		ok := c.And(c.Not(c.Eq(x, c.Int(0))), c.UF("implements_"+sanitize(shortTypeName(t.AssertedType)), SBool, c.UF("typeof", SInt, x)))
+		if ifc, isI := t.AssertedType.Underlying().(*types.Interface); isI && types.Implements(t.X.Type(), ifc) {
+			// the static type of the operand already guarantees the method set: only nil fails
+			ok = c.Not(c.Eq(x, c.Int(0)))
+		}
 		if t.CommaOk {
 			fr.vals[t] = Val{Tuple: []Val{{T: c.Ite(ok, x, c.Int(0)), GoT: t.AssertedType}, {T: ok}}}
 		} else {
@@ -517,7 +536,7 @@ func (fc *FuncCtx) execTypeAssert(fr *Frame, st *State, t *ssa.TypeAssert) {
 		return
 	}
 	so := v.tm.SortOf(t.AssertedType)
-	name := "box_" + sanitize(shortTypeName(t.AssertedType))
+	name := boxName(t.AssertedType)
 	ok := c.And(c.Not(c.Eq(x, c.Int(0))), c.Eq(c.UF("typeof", SInt, x), v.typeTag(t.AssertedType)))
 	c.DeclareFun("un"+name, []*Sort{SInt}, so)
 	val := c.App("un"+name, so, x)
